@@ -13,26 +13,30 @@ CLAIMED = {
     technique="Coq proof (scan invariant by induction over n) + exact model/implementation correspondence",
     ref="DESIGN.md section 6, C04"),
  "C05": dict(
-    text="Exact-integer correspondence of the Gallina model of ops.py/self_add/self_mul/gram with the implementation over all 49 "
-         "ordered kind pairs x {+,-,*,@}, unary -, scalar *, gram and result trees (result kind, orders, None-ness, dense value), "
-         "plus a numpy oracle on dense renderings; theorems (add/hadamard/matmul soundness) are being added to Props/C05.v.",
-    note="Trusted: Coq kernel, hand-written model Model/QSMOps.v tied by correspondence, harness, JAX. Until the soundness theorems "
-         "land, the verdict rests on correspondence + oracle over generated cases (stated in evidence).",
-    technique="Coq model + exact model/implementation correspondence over all kind pairs; proofs in progress",
+    text="Machine-checked theorems (Coq 8.16/MathComp, any field, every size, all unequal orders, all 49 ordered kind pairs): the dense matrix of "
+         "scale / negation / sum / difference / matrix product / elementwise product / gram of quasiseparable matrices is the same operation on the "
+         "operands' dense matrices; + and - are total on kinds that carry a diagonal and return None exactly for strict-lower + strict-upper; @ is total. "
+         "The Gallina model of ops.py / self_add / self_mul / gram is tied to the implementation by exact-integer correspondence (result kind, orders, "
+         "None-ness, dense value) over all 49 pairs x {+,-,*,@}, unary -, scalar *, gram and result trees, plus a numpy oracle on dense renderings.",
+    note="Trusted: Coq kernel, hand-written model Model/QSMOps.v tied by correspondence, harness, JAX. qsm_mul exists in two Gallina forms (branch by "
+         "branch like the Python, and a uniform form in which a missing part is a part of order 0); the theorems are about the uniform form, and both "
+         "forms are compared with the implementation on every case. Rounding is outside the theorems.",
+    technique="Coq proof (block-triangular transition products, phi/psi scan invariants, Kronecker index map) + exact model/implementation correspondence over all kind pairs",
     ref="DESIGN.md section 6, C05"),
  "C06": dict(
     text="Machine-checked theorems (any field, all n, m, c): forward substitution solves L x = y; the closed-form generators of "
-         "LowerTriQSM.inv give a two-sided inverse and its matmul scan equals the solve scan. Upper/square/symmetric inverses are "
-         "covered by tolerance correspondence of the model and a numpy.linalg oracle on well-conditioned inputs.",
-    note="Trusted: Coq kernel, model Model/QSMSolve.v tied by tolerance correspondence (1e-9*scale), numpy oracle. Rounding outside the theorems. "
-         "Square/Symm inverse theorems pending.",
-    technique="Coq proof (induction over scan length, same-recurrence argument) + tolerance correspondence",
+         "LowerTriQSM.inv give a two-sided inverse and its matmul scan equals the solve scan; the same for backward substitution and UpperTriQSM.inv; "
+         "SquareQSM.inv and SymmQSM.inv return a two-sided inverse of the same kind whenever all leading principal blocks are non-singular "
+         "(A = (1+L) diag(pivots) (1+U) with the same generators, pivots = ratios of leading principal minors; non-symmetric, unequal orders, "
+         "non-commuting transition matrices included). Model tied by tolerance correspondence; numpy.linalg oracle on well-conditioned inputs.",
+    note="Trusted: Coq kernel, model Model/QSMSolve.v tied by tolerance correspondence (1e-9*scale), numpy oracle. Rounding outside the theorems.",
+    technique="Coq proof (induction over scan length, same-recurrence argument; LDU elimination for square / symmetric inverses) + tolerance correspondence",
     ref="DESIGN.md section 6, C06"),
  "C07": dict(
-    text="Machine-checked theorem over every real-closed field: when all pivots of the recursion are positive, SymmQSM.cholesky of the model "
+    text="Machine-checked theorems over every real-closed field: when all leading principal minors are positive (Sylvester's criterion for positive definiteness) all pivots of the recursion are positive, and when all pivots are positive, SymmQSM.cholesky of the model "
          "returns a lower-triangular factor of the same size/order with positive diagonal and L L^T = A, for all n and m; the model is tied to "
          "core.py by tolerance correspondence on SPD matrices produced by kernels+noise, sums, products, inverses and Gram products.",
-    note="Trusted: Coq kernel, model, harness, numpy oracle. 'pivots positive <=> A SPD' and rounding are outside the theorem so far.",
+    note="Trusted: Coq kernel, model, harness, numpy oracle. Rounding is outside the theorems (the oracle uses scaled SPD matrices, 1e-20 ... 1e12, with relative tolerances).",
     technique="Coq proof over rcfType (invariant f_k = sum P w w^T P^T) + tolerance correspondence",
     ref="DESIGN.md section 6, C07"),
  "C08": dict(
@@ -49,7 +53,7 @@ CLAIMED = {
          "matrix, noise @ y is that matrix times y, ignored slots never matter, diagonal and symmetry; Diagonal/Dense views. Exhaustive exact-integer "
          "correspondence of the model (incl. the scatter-add of + with accumulate-on-duplicate semantics) over all (N,J) up to the tier bound, and "
          "GaussianProcess covariance/variance with both solvers against K + B.",
-    note="Trusted: Coq kernel, model Model/Noise.v, harness, numpy loop oracle. The `+` (scatter) view of Banded/Diagonal is covered by exhaustive correspondence, not yet by a theorem.",
+    note="Trusted: Coq kernel, model Model/Noise.v, harness, numpy loop oracle. The `+` views of Diagonal and Banded (accumulate-on-duplicate scatter-adds over _indices) are theorems (diagonal_add, banded_add).",
     technique="Coq proof (shift-matrix powers) + exhaustive exact correspondence over (N,J)",
     ref="DESIGN.md section 6, C11"),
  "C09": dict(
@@ -89,14 +93,14 @@ CLAIMED = {
     text="Machine-checked theorems (any field): fast-path mean y - N alpha = K alpha + m; every mean path of the model (training inputs, alternative kernel, new inputs; include_mean both ways); "
          "conditional covariance through a factor equals K** + N* - K*^T S^-1 K*; the quasiseparable dense fallback of the model returns exactly that (with the predictive noise). "
          "Model tied by tolerance correspondence over the option matrix {test set} x include_mean x predictive kernel x predictive noise x solver, predict() variants, numpy textbook oracle.",
-    note="Trusted: as C01. The QSM branch of QuasisepSolver.condition (M + N* - gram(L^-1 M)) is covered by correspondence + oracle; its theorem needs C05 matmul_sound (pending).",
+    note="Trusted: as C01. The structured branch of QuasisepSolver.condition (M + N* - gram(inv(L) @ M), quasiseparable arithmetic only) is a theorem (cond_cov_quasisep_qsm, composed from the C05/C06 theorems) and is exercised with every predictive-noise kind in every tier.",
     technique="Coq proof (Gaussian conditional algebra on the pipeline model) + tolerance correspondence over the option matrix",
     ref="DESIGN.md section 6, C02"),
  "C03": dict(
     text="Machine-checked: any two lower-triangular factors of the same matrix give the same whitened quadratic form and the same squared diagonal product, so the value reported does not depend on the "
          "factorisation algorithm. Pairwise comparison of the implementation's dense / quasiseparable / Kalman solvers (log probability, normalisation, covariance, variance, samples for a key, triangular product/solve) "
          "and correspondence of the Kalman recursion's Gallina model with the implementation and with the Cholesky diagonal (s_k = c_k^2).",
-    note="Trusted: as C01. kalman_is_cholesky is checked at model level by correspondence, not yet proved; uniqueness of the positive-diagonal factor (solver-independent samples) observed, theorem pending.",
+    note="Trusted: as C01. kalman_is_cholesky is checked at model level by correspondence, not proved; uniqueness of the lower-triangular factor with positive diagonal (solver-independent samples / dot_triangular) is a theorem (chol_unique); the conditional process is compared solver against solver in 8 conditioning modes.",
     technique="Coq proof (factor-independence of the Gaussian quantities) + correspondence of the Kalman model",
     ref="DESIGN.md section 6, C03"),
  "C12": dict(
@@ -114,7 +118,7 @@ CLAIMED = {
     technique="Coq proof (Schur complement algebra, block determinant) + history execution against oracle",
     ref="DESIGN.md section 6, C13"),
  "C16": dict(
-    text="Coq theorem by complete enumeration (vm_compute, lifted with forallb_forall) of a shape table REGENERATED on every run from dead-code-eliminated jaxprs of 19 scalable entry points: "
+    text="Coq theorem by complete enumeration (vm_compute, lifted with forallb_forall) of a shape table REGENERATED on every run from dead-code-eliminated jaxprs of 28 scalable entry points (incl. conditioning with banded / diagonal predictive noise and an alternative kernel): "
          "no intermediate has two data-sized dimensions and no shape inside a data-length loop body depends on N or T; a generic theorem then gives, for every N and T, that the total element count "
          "of each entry point is an affine function of (N, T). The dense covariance is a positive control that the same predicate rejects.",
     note="PARTIAL: faithfulness of jax.make_jaxpr/DCE to execution and the affine fit (five traces) are trusted; XLA may fuse or rematerialise. Binary-search loops of searchsorted contribute log-sized dimensions recorded as a constant bound 64.",
@@ -141,7 +145,7 @@ CLAIMED = {
          "leaves; (quasiseparable family, any field, generic kernels) scaling and sums have the pointwise value, combinators return state-space kernels of dimension m1+m2 / m1*m2 / m; the operator table never "
          "yields a quasiseparable kernel from a mixed pair. The Kronecker state of products and nested combinations is tied by exact correspondence with the implementation on integer kernels; random trees of "
          "depth <= 3/4 in both families against recursive numpy evaluation, Quasisep-ness, solver selection, dense-namesake twins, mixing pairs.",
-    note="Trusted: Coq kernel (+ stdlib real axioms for the general family), translator, models Model/SSKernel.v and Model/Guards.v, harness. qs_product_pointwise (mixed-product property for the code's index map) is not yet a theorem.",
+    note="Trusted: Coq kernel (+ stdlib real axioms for the general family), translator, models Model/SSKernel.v and Model/Guards.v, harness. qs_product_pointwise (mixed-product property for the code's index map t -> (t mod m1, t div m1)) is a theorem.",
     technique="Coq proof (induction over expression trees; block-diagonal algebra) + exact correspondence + oracle",
     ref="DESIGN.md section 6, C10"),
  "C15": dict(
